@@ -16,7 +16,8 @@ inline Prog decode(hz::Reader &r) {
     for (unsigned i = 0; i < n; i++) {
         std::vector<Step> s; unsigned len = r.mod(7); bool owns = false;
         for (unsigned k = 0; k < len; k++) {
-            Step x; x.kind = (uint8_t)r.mod(S_COUNT); x.arg = (uint8_t)r.mod(x.kind == S_START_NESTED ? 24 : NF);
+            Step x; x.kind = (uint8_t)r.mod(S_COUNT); x.arg = (uint8_t)r.mod(x.kind == S_START_NESTED ? 24 : 2 * NF);
+            if (x.kind != S_START_NESTED && x.arg >= NF) x.arg = 0;      // half of the future operations meet at future #0: several coroutines waiting for ONE resolution (4 and more: the suspend point's heap mode)
             if (x.kind == S_LOCK) { if (owns) x.kind = S_PAUSE; else owns = true; }
             else if (x.kind == S_UNLOCK_DISCARD || x.kind == S_UNLOCK_AWAIT) { if (!owns) x.kind = S_SPAWN; else owns = false; }
             s.push_back(x);
